@@ -150,9 +150,11 @@ static char *vfmt(const char *fmt, va_list ap)
     return s;
 }
 
+static int vh_quiet = 0;
 void vh_desc(const char *fmt, ...)
 {
     va_list ap; char *s;
+    if (vh_quiet) return;
     va_start(ap, fmt); s = vfmt(fmt, ap); va_end(ap);
     fprintf(vh_out, "{\"t\":\"desc\",\"case\":%ld,\"d\":", vh_case);
     json_str(vh_out, s);
@@ -165,6 +167,7 @@ void vh_desc(const char *fmt, ...)
 void vh_viol(const char *key, const char *fmt, ...)
 {
     va_list ap; char *s;
+    if (vh_quiet) return;
     if (++vh_nviol_case > 8 || ++vh_nviol_total > 400) {
         vh_count("viol_lines_suppressed", 1);
         return;
@@ -183,6 +186,7 @@ void vh_viol(const char *key, const char *fmt, ...)
 void vh_inconc(const char *fmt, ...)
 {
     va_list ap; char *s;
+    if (vh_quiet) return;
     va_start(ap, fmt); s = vfmt(fmt, ap); va_end(ap);
     fprintf(vh_out, "{\"t\":\"inconc\",\"case\":%ld,\"why\":", vh_case);
     json_str(vh_out, s);
@@ -397,6 +401,14 @@ int vh_leak_check(void)
     return r;
 }
 
+static const char *vh_extra_name[16], *vh_extra_val[16]; static int vh_nextra;
+const char *vh_arg(const char *name, const char *def)
+{
+    int i;
+    for (i = 0; i < vh_nextra; ++i) if (!strcmp(vh_extra_name[i], name)) return vh_extra_val[i];
+    return def;
+}
+
 static void usage(const char *name)
 {
     fprintf(stderr,
@@ -407,7 +419,7 @@ static void usage(const char *name)
 
 int vh_main(int argc, char **argv, const vh_harness *h)
 {
-    long shard = 0, nshards = 1, first = 0, only = -1, req = -1, n, j;
+    long shard = 0, nshards = 1, first = 0, only = -1, req = -1, last = -1, n, j;
     const char *outpath = NULL;
     int a;
     struct sigaction sa;
@@ -422,12 +434,14 @@ int vh_main(int argc, char **argv, const vh_harness *h)
         else if (!strcmp(o, "--nshards") && v) { nshards = atol(v); ++a; }
         else if (!strcmp(o, "--first") && v) { first = atol(v); ++a; }
         else if (!strcmp(o, "--only") && v) { only = atol(v); ++a; }
+        else if (!strcmp(o, "--last") && v) { last = atol(v); ++a; }
         else if (!strcmp(o, "--out") && v) { outpath = v; ++a; }
         else if (!strcmp(o, "--repo") && v) { vh_repo = v; ++a; }
         else if (!strcmp(o, "--dump") && v) { vh_dump_dir = v; ++a; }
         else if (!strcmp(o, "--tmp") && v) { vh_tmp_base = v; ++a; }
         else if (!strcmp(o, "--samples") && v) { vh_max_sample = atoi(v); ++a; }
         else if (!strcmp(o, "--verbose")) { vh_replay = 1; }
+        else if (!strncmp(o, "--x-", 4) && v && vh_nextra < 16) { vh_extra_name[vh_nextra] = o + 4; vh_extra_val[vh_nextra] = v; ++vh_nextra; ++a; }
         else { usage(h->name); return 3; }
     }
     if (outpath) {
@@ -472,6 +486,9 @@ int vh_main(int argc, char **argv, const vh_harness *h)
         long i = (only >= 0) ? only : j * nshards + shard;
         vh_rng r;
         if (i >= n) break;
+        if (last >= 0 && i > last) break;
+        vh_quiet = (last >= 0 && i < last);   /* history replay: earlier cases only rebuild the state */
+        if (last >= 0) vh_replay = (i == last);
         vh_case = i;
         vh_nt = 0;
         vh_sig[0] = 0;
